@@ -160,7 +160,7 @@ class GeometricConstraintsRowWise(GeometricConstraints):
         self.type = DesignGeomType.ROWWISE
 
     def to_input(self) -> dict:
-        return {
+        d = {
             'perimeter_spacing_ratio': self.perimeter_spacing_ratio,
             'min_spacing': self.min_spacing,
             'max_spacing': self.max_spacing,
@@ -172,3 +172,7 @@ class GeometricConstraintsRowWise(GeometricConstraints):
             'no_go_boundaries': self.no_go_boundaries,
             'method': DesignGeomType.ROWWISE.name,
         }
+        if self.perimeter_spacing_ratio is None:
+            # optional input: left out (not written as null) when the perimeter spacing is not used
+            del d['perimeter_spacing_ratio']
+        return d
